@@ -5,7 +5,10 @@ set -e
 PATCH=$(realpath "$1"); shift
 WT=$(mktemp -d /tmp/mut-XXXXXX)
 git -C /repo worktree add -q --detach "$WT" HEAD
-trap 'git -C /repo worktree remove --force "$WT" >/dev/null 2>&1 || true' EXIT
+H=$(python3 -c "import hashlib,os,sys;print(hashlib.sha1(os.path.realpath(sys.argv[1]).encode()).hexdigest()[:8])" "$WT")
+# the scratch worktree and the per-checkout work directories go away with the run (disk); the small
+# replay files under replays/<PID>_<hash>/ stay unless KEEP_WORK is unset and TRY_PATCH_CLEAN_REPLAYS=1
+trap 'git -C /repo worktree remove --force "$WT" >/dev/null 2>&1 || true; [ -n "$KEEP_WORK" ] || rm -rf "$(dirname "$0")"/../work/C??_"$H"' EXIT
 git -C "$WT" apply "$PATCH"
 for P in "$@"; do
   echo "== $P on $(basename $PATCH)"
